@@ -115,12 +115,24 @@ func DiffStrings(a, b []string) string {
 	return ""
 }
 
+// FormatSource is format.Source with go/format's own crashes turned into errors (go/ast.SortImports
+// panics on `import(""//c⏎"")` without a final newline: "invalid line number"). Such inputs are
+// treated like inputs gofmt rejects.
+func FormatSource(src []byte) (out []byte, err error) {
+	defer func() {
+		if r := recover(); r != nil {
+			out, err = nil, fmt.Errorf("go/format panicked: %v", r)
+		}
+	}()
+	return format.Source(src)
+}
+
 // Canon applies format.Source until a fixpoint (at most 4 rounds). fix reports whether a
 // fixpoint was reached; err is the parse error if src is not valid Go.
 func Canon(src []byte) (out []byte, fix bool, err error) {
 	cur := src
 	for i := 0; i < 4; i++ {
-		next, err := format.Source(cur)
+		next, err := FormatSource(cur)
 		if err != nil {
 			return nil, false, err
 		}
@@ -134,7 +146,7 @@ func Canon(src []byte) (out []byte, fix bool, err error) {
 
 // IsCanon reports whether src is a gofmt fixpoint.
 func IsCanon(src []byte) bool {
-	out, err := format.Source(src)
+	out, err := FormatSource(src)
 	return err == nil && bytes.Equal(out, src)
 }
 
@@ -294,7 +306,7 @@ func Reindent(src []byte, prefix, cprefix string) []byte {
 // comment re-flow and continuation indentation from source columns, which dst does not store).
 func ColumnRobust(src []byte) bool {
 	for _, p := range [][2]string{{"", ""}, {"", " "}, {" ", ""}} {
-		out, err := format.Source(Reindent(src, p[0], p[1]))
+		out, err := FormatSource(Reindent(src, p[0], p[1]))
 		if err != nil || !bytes.Equal(out, src) {
 			return false
 		}
